@@ -77,3 +77,31 @@ Theorem C06_archival_status :
     find_cond conds CAvailable = None /\ (cond_true conds CArchived = true -> ctrlof = []).
 Proof. exact C06_archival_status. Qed.
 Print Assumptions C06_archival_status.
+
+(** The controller-level monitor m06 (coq/corr/SetMonitors.v: archived short-circuit; Succeeded never withdrawn; no
+    Available while deleting / archiving; Available=True, Succeeded=True and the clearing of InTransition only on what
+    the pass observed). REFUTED as an acceptance claim over all cases: the monitor demands every listed key LITERALLY
+    in status.controllerOf when InTransition is cleared, whereas the model (isObjectSetInTransition 337-352) lets a
+    namespace-less reference reported by an ObjectSetPhase stand for a listed object of the same group, kind and name;
+    on [x_nsless_case] (a delegated phase whose phase object reports its object without a namespace) the monitor raises
+    a false alarm on the model itself. *)
+From PKOCorr Require Import SetCorr SetMonitors SetMonSound SetMonSound2.
+Theorem C06_set_monitor_refuted :
+  exists c : scase, nsless_refs_literal c = false /\ m06 (set_obs_s c (SetCorr.model_run c)) = false.
+Proof. exact m06_refuted. Qed.
+Print Assumptions C06_set_monitor_refuted.
+
+(** Partial (excluded: active ObjectSets with a stored InTransition condition in which a namespace-less key - listed by
+    a cluster-scoped ObjectSet itself, or reported in status.controllerOf of the stored phase object of one of its
+    delegated phases - shares group/kind and name with a DIFFERENT listed key): otherwise the monitor accepts every pass
+    of the model. No uniqueness of the stored ObjectSets is assumed. *)
+Theorem C06_set_monitor_sound_partial :
+  forall c : scase, nsless_refs_literal c = true -> m06 (set_obs_s c (SetCorr.model_run c)) = true.
+Proof. exact m06_sound_partial. Qed.
+Print Assumptions C06_set_monitor_sound_partial.
+
+Example C06_set_monitor_hypothesis_satisfiable :
+  nsless_refs_literal x_nsfull_case = true /\
+  map (fun s => let '(cs, co, _, _) := s in (find_cond cs CInTransition, co)) (statuses (set_obs_s x_nsfull_case (SetCorr.model_run x_nsfull_case)))
+  = [(None, [x_key 1 1])].
+Proof. exact m06_hypothesis_satisfiable. Qed.
